@@ -38,7 +38,7 @@ def _place(rng, doc, stage, p_prio, p_del):
     def rec(n, tagged, in_seq, is_root):
         if n['t'] == 'sp':
             return
-        if not tagged and not in_seq and rng.random() < (p_prio * 0.4 if is_root else p_prio):
+        if (not tagged or rng.random() < 0.25) and not in_seq and rng.random() < (p_prio * 0.4 if is_root else p_prio):
             n['prio'] = rng.choice([1, -1])
             tagged = True
         if rng.random() < p_del and not (in_seq and rng.random() < 0.7):
